@@ -338,7 +338,7 @@ register(Contract(
 ))
 
 register(Contract(
-    key=FSH + "__process_file_fix_pass", properties=["C10", "C15", "C09"],
+    key=FSH + "__process_file_fix_pass", properties=["C10", "C15", "C09", "C08"],
     ghost=dict(FIXG, g_tokfix="bool", g_nrec="int", g_two="str"),
     calls={"self.__get_temporary_file_name": TMPNAME,
            "self.__process_file_fix_tokens": (FSH + "__process_file_fix_tokens", ["g_tokfix = result[2]", "g_two = result[0]"]),
@@ -354,7 +354,11 @@ register(Contract(
         "forall_val(lambda x: (x in g_files) == old(x in g_files))", MONO,
     ],
     xensures={"BaseException": ["forall_val(lambda x: (x in g_files) == old(x in g_files))",      # ... also when a rule or the parser fails
-                                "forall_val(lambda x: implies(x != next_file, (x in g_written) == old(x in g_written)))", MONO]},
+                                "forall_val(lambda x: implies(x != next_file, (x in g_written) == old(x in g_written)))", MONO],
+              # C08 / C15: a pass that is cut short by a failing rule or by the parser has not touched the user's file -- never a
+              # half-processed document (the copy back is the last step of a pass that completed)
+              "BadPluginError": ["(next_file in g_written) == old(next_file in g_written)"],
+              "BadTokenizationError": ["(next_file in g_written) == old(next_file in g_written)"]},
     raises=FIX_RAISES,
     modifies=["*", "number_of_scan_failures", "g_files.$dict", "g_written.$dict"],
 ))
